@@ -221,6 +221,77 @@ theorem c04_needs_ser (h : Header) (hs : ¬ Ser h) : ∃ e, hdrMarshal h = .err 
 theorem c04_needs_padding_size (p : Packet) (h1 : p.header.padding = true) (h2 : p.paddingSize = 0)
     (dst : Bytes) : pktMarshalTo p dst = .err .invalidPadding := by
   unfold pktMarshalTo; simp [h1, h2]
+/-- the run-time predicate's body for every serialisable description with a consistent padding flag -/
+theorem c04_to_general (p : Packet) (hs : Ser p.header) (hp : PadOK p) (dst : Bytes) :
+    Pred.C04.holds dst (Pred.C04.modelObs p dst) = true := by
+  unfold Pred.C04.holds Pred.C04.modelObs
+  simp only [pktMarshal_ser p hs hp, hdrMarshal_ser _ hs, Bool.and_eq_true]
+  constructor
+  · apply contract_of
+    · exact pktMarshalTo_short_ser p hs hp dst
+    · exact fun h => ⟨pktWire_length_ser p hs hp, pktMarshalTo_ser p hs hp dst h⟩
+    · intro d n hr
+      simp [Pred.C04.pktToBuf, padding_ok p hp, hr]
+  · apply contract_of
+    · exact hdrMarshalTo_short _ dst
+    · exact fun h => ⟨hdrWire_length_ser _ hs, hdrMarshalTo_ser _ hs dst h⟩
+    · intro d n hr
+      simp [Pred.C04.hdrToBuf, hr]
+
+/-- EXACTLY the descriptions for which the contract holds with every destination: the elements can
+    be serialised and the padding flag matches the padding size.  (C04's own domain, the
+    well-formed packets, lies inside.) -/
+theorem c04_iff (p : Packet) :
+    (∀ dst, Pred.C04.holds dst (Pred.C04.modelObs p dst) = true) ↔ (Ser p.header ∧ PadOK p) := by
+  constructor
+  · intro hall
+    have hser : Ser p.header := by
+      apply Classical.byContradiction
+      intro hns
+      obtain ⟨e, he⟩ := c04_needs_ser _ hns
+      have := hall (rep (pktMarshalSize p) 0)
+      simp only [Pred.C04.holds, Pred.C04.modelObs, he, Bool.and_eq_true] at this
+      have h2 := this.2
+      unfold Pred.C04.contract at h2
+      rw [if_neg (by simp [rep, pktMarshalSize]; omega)] at h2
+      simp at h2
+    refine ⟨hser, ?_⟩
+    unfold PadOK
+    cases hpad : p.header.padding
+    · -- no flag: the size must be 0, else a dirty destination shows through
+      by_cases hps : 1 ≤ p.paddingSize.toNat
+      · exfalso
+        have := hall (rep (pktMarshalSize p) 0xFF)
+        simp only [Pred.C04.holds, Pred.C04.modelObs, pktMarshal_noflag p hser hpad,
+          pktMarshalTo_noflag_dirty p hser hpad, Bool.and_eq_true] at this
+        have h1 := this.1
+        unfold Pred.C04.contract at h1
+        rw [if_neg (by simp [rep])] at h1
+        have hb : Pred.C04.pktToBuf p (rep (pktMarshalSize p) 0xFF) =
+            hdrWire p.header ++ (p.payload ++ rep p.paddingSize.toNat 0xFF) := by
+          simp [Pred.C04.pktToBuf, hpad, pktMarshalTo_noflag_dirty p hser hpad]
+        simp only [hb, Bool.and_eq_true, beq_iff_eq] at h1
+        have h3 := h1.2
+        rw [List.drop_of_length_le (by simp [rep]), List.append_nil] at h3
+        have h4 := List.append_cancel_left (List.append_cancel_left h3)
+        have : ∃ k, p.paddingSize.toNat = k + 1 := ⟨p.paddingSize.toNat - 1, by omega⟩
+        obtain ⟨k, hk⟩ := this
+        rw [hk] at h4
+        simp [rep, List.replicate_succ] at h4
+      · simp [hps]
+    · -- flag set: the size must be ≥ 1, else every call fails with the padding error
+      by_cases hps : 1 ≤ p.paddingSize.toNat
+      · simp [hps]
+      · exfalso
+        have h0 : p.paddingSize = 0 := UInt8.toNat_inj.mp (by simp; omega)
+        have := hall []
+        simp only [Pred.C04.holds, Pred.C04.modelObs, c04_needs_padding_size p hpad h0, Bool.and_eq_true] at this
+        have h1 := this.1
+        unfold Pred.C04.contract at h1
+        rw [if_pos (by simp [pktMarshalSize, hdrMarshalSize]; omega)] at h1
+        simp [Res.map] at h1
+  · intro ⟨hs, hp⟩ dst
+    exact c04_to_general p hs hp dst
 /-! ### non-vacuity: the hypotheses are met by non-trivial packets, and the conclusion is the
     expected bytes (DESIGN §7 row 3: padding 4 after payload [1,2], destination all 0xEE) -/
 
